@@ -15,6 +15,7 @@ import itertools
 import json
 import random
 
+from bcheck.common import history_independence
 from bcheck.common import Collector, args, run_sharded, call, jsonable
 from bcheck import ref_c16 as ref
 
@@ -496,9 +497,21 @@ def replay_is_url(col, st, clause, inp):
                     st.add(clause, "replay", FN_IS, inp, True, "False: %r" % (cx,), len(s))
 
 
+def history_block(col):
+    """the answer depends on the string and the options only: the host family, hosts sharing a last label next to each other, in two orders"""
+    fam = sorted(HOSTS, key=lambda h: (h.lower().rstrip(".").rsplit(".", 1)[-1], len(h)))
+    hist = [(("http://" + h + t,), o) for h in fam for t in ("", "/p") for o in OPTS]
+    history_independence(col, FN_IS, "ural.is_url", "is_url", hist)
+
+
 def replay(a, col):
     rp = json.load(open(a.replay))
     inp = rp["input"]
+    if rp["clause"] == "result-independent-of-call-history":
+        history_block(col)  # the witness is a history, not one call: the whole (deterministic) history is run again
+        col.rule = "replay"
+        col.dump(a.out)
+        return
     st = Store()
     if isinstance(inp, dict) and "text" in inp:
         check_text(col, st, inp["text"])
@@ -525,6 +538,7 @@ def main():
         stores.append(part.pop("store"))
         col.merge(part)
     emit(col, stores)
+    history_block(col)
     col.sample({"is_url": "http://u:p@localhost.zz:80/p q", "options": "all 16 valuations", "pad": ["\u00a0", ""]})
     col.sample({"is_url": "//a.zz/", "options": "all 16 valuations"})
     col.sample({"is_url": "http://1.2.3.4.com:65535?q=1"})
